@@ -6,7 +6,7 @@
    not proved anywhere in this development. *)
 From Coq Require Import NArith Arith List Bool Lia ZifyN ZifyNat ZifyBool.
 Import ListNotations.
-Require Import V.model.ScalarMul.
+Require Import V.model.ScalarMul V.gen.MsmWindow.
 Local Open Scope N_scope.
 
 (* little-endian value of a byte string *)
@@ -14,6 +14,30 @@ Fixpoint le_value (s : list N) : N :=
   match s with [] => 0 | b :: r => b + 256 * le_value r end.
 
 Definition bytes_ok (s : list N) : Prop := Forall (fun b => b < 256) s.
+
+(* The window extraction: the closure getWindow as REGENERATED from mul.go with the Go typing of every
+   subexpression (gen/MsmWindow.v; byte-typed arithmetic wraps modulo 256) is the hand-written
+   get_window of model/ScalarMul.v, for every window width, start bit and byte string.  A change such as
+   `uint(bit << uint(k))` (a byte-typed shift) makes the generated term differ and this proof fail. *)
+Lemma range_loop_get_window_aux : forall b start n k acc,
+  range_loop (getWindow_body b start) (N.of_nat k) n acc = N.lor acc (get_window_aux b start k n).
+Proof.
+  intros b start. induction n as [|n IH]; intros k acc.
+  - cbn [range_loop get_window_aux]. symmetry. apply N.lor_0_r.
+  - cbn [range_loop get_window_aux]. unfold getWindow_body. cbv zeta.
+    destruct (N.of_nat (length b) <=? (start + N.of_nat k) / 8).
+    + symmetry. apply N.lor_0_r.
+    + rewrite <- Nat2N.inj_succ. rewrite IH. symmetry. apply N.lor_assoc.
+Qed.
+
+Theorem getWindow_generated_eq_model : forall w b start, getWindow w b start = get_window b start w.
+Proof.
+  intros w b start. unfold getWindow, get_window. destruct b as [|x r].
+  - reflexivity.
+  - replace (N.of_nat (length (x :: r)) =? 0) with false
+      by (symmetry; apply N.eqb_neq; cbn [length]; lia).
+    change 0 with (N.of_nat 0) at 1. rewrite range_loop_get_window_aux. apply N.lor_0_l.
+Qed.
 
 Section Proofs.
   Context {G : Type} (zero : G) (add : G -> G -> G) (dbl : G -> G) (is_zero : G -> bool).
